@@ -54,7 +54,8 @@ def standin_constant_model(tier, seed):
             for perm in itertools.permutations(range(n_vis)):
                 rows = [("subj", ages0[i], vals[i, 0], vals[i, 1]) for i in perm]
                 # a second individual with complete data so that no feature column is entirely missing in the table
-                rows += [("other", 60.0 if ages0[0] > 0 else -3.0, 0.3, 0.3)]
+                # (with more visits than the individual under test, so that the latter's rows are padded in the dataset)
+                rows += [("other", (60.0 if ages0[0] > 0 else -3.0) + 0.25 * q_, 0.3, 0.3) for q_ in range(4)]
                 df = pd.DataFrame(rows, columns=["ID", "TIME", "A", "B"])
                 try:
                     data = Data.from_dataframe(df)
